@@ -34,6 +34,42 @@ type absRec struct {
 	phys       map[string]string              // physical id -> logical id
 	unmodelled []string                       // what the model has no action for (node added / removed, ...)
 	lockPrefix string
+	held       map[int]map[string]bool // thread -> node names it currently holds the lock of
+}
+
+// onLocked / onUnlocked keep the observable lock events to real transitions: a successful Lock of keys the thread
+// already holds (re-confirmation before phase 2) and an Unlock issued without holding anything (clean-up after a
+// failed Lock attempt) change nothing and are not events of the protocol.
+func (r *absRec) onLocked(tid int, ns []string) {
+	if r.held == nil {
+		r.held = map[int]map[string]bool{}
+	}
+	if r.held[tid] == nil {
+		r.held[tid] = map[string]bool{}
+	}
+	fresh := false
+	for _, n := range ns {
+		if !r.held[tid][n] {
+			fresh = true
+		}
+		r.held[tid][n] = true
+	}
+	if fresh {
+		r.events = append(r.events, absEvent{Op: "Lock", T: tid, Ns: ns})
+	}
+}
+
+func (r *absRec) onUnlocked(tid int, ns []string) {
+	had := false
+	for _, n := range ns {
+		if r.held[tid][n] {
+			had = true
+			delete(r.held[tid], n)
+		}
+	}
+	if had {
+		r.events = append(r.events, absEvent{Op: "Unlock", T: tid, Ns: ns})
+	}
 }
 
 func newAbsRec() *absRec {
